@@ -136,7 +136,7 @@ def inst_plan(mo, mn, deg, smax, itemsize=1, thr_max=4, lim_max=16, empty_axes=(
         nm += ",zero-width chunks allowed"
     return Instance(f"plan_rechunk[{nm},degree={deg},sizes<={smax},itemsize={itemsize}]", body,
                     dict(old_blocks=mo, new_blocks=mn, degree_limit=deg, max_size=smax, itemsize=itemsize),
-                    unit="plan_rechunk", api_replay=api, cost=cost * (2 if deg < 100 else 1), wall_s=900, timeout_ms=30000,
+                    unit="plan_rechunk", api_replay=api, cost=cost * (2 if deg < 100 else 1), wall_s=2700, timeout_ms=30000,
                     max_paths=50000)
 
 
